@@ -51,11 +51,18 @@ def register(ctx, report, facts, config, rule="C17.REGISTER"):
             continue
         events = [x for x in W._deep(e.path.events)]
         pos = dict((id(x), i) for i, x in enumerate(events))
-        ents = [x for x in events if x[0] == "call" and x[2].name == "entry" and not x[2].local and Q.crate_fields(Q.table_access(ev, x[3][0])[0]) == [(MT, "indices")]]
+        # is the type already known?  asked through the entry API, or through get / contains_key
+        ents = [x for x in events if x[0] == "call" and x[2].name in ("entry", "get", "contains_key") and not x[2].local and len(x[3]) == 2
+                and Q.crate_fields(Q.table_access(ev, x[3][0])[0]) == [(MT, "indices")] and Q.strip(ev, x[3][0])[0] == "field"]
         if len(ents) != 1:
             continue
         entry_call = ents[0][4]
-        variant = e.path.variant(entry_call)
+        how = ents[0][2].name
+        if how == "contains_key":
+            v_ = e.path.value(entry_call)
+            variant = {1: "Occupied", 0: "Vacant"}.get(v_)
+        else:
+            variant = {"Vacant": "Vacant", "Occupied": "Occupied", "None": "Vacant", "Some": "Occupied"}.get(e.path.variant(entry_call))
         if variant not in ("Vacant", "Occupied"):
             continue
         seen.add(variant)
@@ -70,10 +77,14 @@ def register(ctx, report, facts, config, rule="C17.REGISTER"):
                     continue
                 f_, i_, base = Q.table_access(ev, x[3][0])
                 cf = Q.crate_fields(f_)
-                if c.name in S.SHAPE_MUTATORS and cf and cf[-1][0] == MT and Q.strip(ev, x[3][0])[0] == "field":
+                if c.name in S.SHAPE_MUTATORS and cf and cf[-1][0] == MT and Q.strip(ev, x[3][0])[0] == "field" and cf[-1][1] != "indices":
                     pushes.setdefault(cf[-1][1], []).append((c.name, x[3][1:], i_))
                 if c.name == "insert" and "VacantEntry" in c.path:
-                    inserts.append(x)
+                    inserts.append((x, x[3][1]))
+                elif c.name == "insert" and "HashMap" in c.path and cf == [(MT, "indices")] and len(x[3]) == 3:
+                    inserts.append((x, x[3][2]))
+                    if Q.strip(ev, x[3][1]) != Q.strip(ev, ents[0][3][1]):
+                        problems.append("the index is entered under another key than the one that was looked up")
             elif x[0] == "store" and x[2][0] != "cell":
                 f_, i_, base = Q.table_access(ev, x[2])
                 cf = Q.crate_fields(f_)
@@ -97,7 +108,7 @@ def register(ctx, report, facts, config, rule="C17.REGISTER"):
             if len(inserts) != 1:
                 problems.append("vacant arm inserts %d index entr(y/ies)" % len(inserts))
             else:
-                idx = Q.strip(ev, inserts[0][3][1])
+                idx = Q.strip(ev, inserts[0][1])
                 lens = [x for x in events if x[0] == "call" and x[4] == idx]
                 oki = (Q.is_call(ev, idx, "len") and Q.crate_fields(Q.table_access(ev, idx[2][0])[0]) == [(MT, "indices")]
                        and lens and pos[id(lens[0])] < pos[id(ents[0])])
@@ -115,7 +126,7 @@ def register(ctx, report, facts, config, rule="C17.REGISTER"):
             if stores:
                 problems.append("vacant arm overwrites an existing slot")
         elif variant == "Occupied":
-            if inserts or pushes:
+            if inserts or [k for k in pushes if k != "indices" or inserts]:
                 problems.append("occupied arm grows a table (%s)" % (sorted(pushes) or "indices"))
             sv = [s_ for s_ in stores if s_[0] == vt]
             if len(sv) != 1:
@@ -124,6 +135,8 @@ def register(ctx, report, facts, config, rule="C17.REGISTER"):
                 idx = [Q.strip(ev, i) for i in sv[0][1]]
                 occ = ("field", ("variant", entry_call, "Occupied"), "0", "std::collections::hash_map::Entry")
                 oki = len(idx) == 1 and Q.is_call(ev, idx[0], "get") and "OccupiedEntry" in Q.callee_of(ev, idx[0]).path and Q.strip(ev, idx[0][2][0]) == occ
+                if how == "get":
+                    oki = len(idx) == 1 and idx[0] == ("field", ("variant", entry_call, "Some"), "0", "std::option::Option")
                 if not oki:
                     problems.append("the overwritten slot is not *occ.get()")
                 if not is_vtable_value(sv[0][2]):
@@ -141,6 +154,7 @@ def register(ctx, report, facts, config, rule="C17.REGISTER"):
         report.ob(rule, "register/attach-args", okargs, "stored function is attach_vtable::<T, R>: %s" % attach_args, site=b.loc(), config=config)
     # nobody else mutates the tables
     n = 0
+    reg_cone = facts.cone([b])
     for bd in sorted(facts.bodies.values(), key=lambda b: b.key):
         btt = prog.bt(bd)
         for bb, t in bd.normal_calls():
@@ -152,7 +166,7 @@ def register(ctx, report, facts, config, rule="C17.REGISTER"):
                 cf = S.crate_fields(f_)
                 if cf and cf[-1][0] == MT and cf[-1][1] in (vt, "tys", "indices"):
                     n += 1
-                    if bd.key != b.key:
+                    if bd.key != b.key and not (bd.key in reg_cone and not bd.raw.get("pub")):
                         report.ob(rule, "table-mutated/%s/%s" % (bd.qname, cf[-1][1]), False, "MetaTable.%s is changed by `%s` in %s" % (cf[-1][1], c.name, bd.qname), site=bd.loc(bb), config=config)
     report.floor(rule, "mutating accesses to the three tables", n, 4, config=config)
 
@@ -284,108 +298,134 @@ def attach(ctx, report, facts, config, rule="C17.ATTACH"):
 
 
 def iters(ctx, report, facts, config, rule="C17.ITER"):
-    prog = ctx.program(facts)
+    """MetaIter / MetaIterMut::next: every slot is visited once; the type id and the vtable entry of a yielded resource
+    come from the same slot; absent resources are skipped; present ones are borrowed through their cell."""
     vt = vt_field(facts)
+    tfi = facts.one(A.WORLD + "::try_fetch_internal")
     for adt, borrow, ctor in ((A.METAITER, "borrow", "iter"), (A.METAITERMUT, "borrow_mut", "iter_mut")):
         b = facts.one(name="next", trait="std::iter::Iterator", self_head=adt)
         report.touched(b, config)
-        bt = prog.bt(b)
-        cfg = bt.cfg
+        ev, ends = Q.sem(ctx, facts, b, opaque=[tfi.key, A.RESID + "::from_type_id"])
         problems = []
-        loops = cfg.loops()
-        if len(loops) != 1:
-            problems.append("expected exactly one loop, found %d" % len(loops))
+        cur = ("field", ("param", 1), "index", adt)
+        loops = [L for L in Q.all_loops(ends)]
+        lids = set(L.id for L in loops)
+        if len(lids) != 1:
+            problems.append("expected exactly one loop, found %d" % len(lids))
             report.ob(rule, "%s::next" % adt.rsplit("::", 1)[1], False, "; ".join(problems), site=b.loc(), config=config)
             continue
-        header, blocks = loops[0]
-        # writes and reads of self.index
-        writes, reads = [], []
-        for bi, blk in enumerate(b.blocks):
-            if blk["cleanup"] or bi not in cfg.reach:
+        n_yield = n_skip = n_end = 0
+        for e in ends:
+            if e.kind == "diverge":
+                continue   # bounds / overflow
+            for L, idx in e.path.loops():
+                it = L.iters[idx] if idx is not None else None
+        # every way through one round of the loop, plus what follows the exits
+        ways = []
+        for L in loops:
+            for i_, it in enumerate(L.iters):
+                tail = []
+                rets = []
+                for e in ends:
+                    if any(x[0] == "loop" and x[1] is L and x[2] == i_ for x in e.path.events):
+                        pos = [k for k, x in enumerate(e.path.events) if x[0] == "loop" and x[1] is L][0]
+                        tail = e.path.events[pos + 1:]
+                        rets.append(e)
+                ways.append((L, it, tail, rets))
+        for L, it, tail, rets in ways:
+            if it.end in ("diverge", "unreachable"):
                 continue
-            for si, st in enumerate(blk["stmts"]):
-                if st["k"] != "assign":
-                    continue
-                pp = st["place"]["p"]
-                if pp and pp[-1]["k"] == "field" and pp[-1].get("adt") == adt and pp[-1].get("name") == "index":
-                    writes.append((bi, si, st))
-                rv = st["rv"]
-                ops = [rv.get("op"), rv.get("a"), rv.get("b")] + list(rv.get("ops", []))
-                for o in ops:
-                    if isinstance(o, dict) and "place" in o:
-                        q = o["place"]["p"]
-                        if q and q[-1]["k"] == "field" and q[-1].get("adt") == adt and q[-1].get("name") == "index":
-                            reads.append((bi, si))
-        if len(writes) != 1:
-            problems.append("self.index is assigned at %d sites (expected 1)" % len(writes))
-        else:
-            wb, wi, wst = writes[0]
-            val = bt.rvalue(wst["rv"])
-            cur = ("field", ("param", 1), "index", adt)
-            from ..placement import fold_like
-            if not fold_like(val, cur, 1):
-                problems.append("self.index is not advanced by exactly 1")
-            cnt = per_iteration_counts(cfg, header, set(blocks), lambda x: x == wb)
-            if cnt != (1, 1):
-                problems.append("self.index is advanced min %s / max %s times per continuing iteration (expected exactly 1)" % (cnt and cnt[0], cnt and cnt[1]))
-            for rb, ri in reads:
-                before = (rb == wb and ri < wi) or (rb != wb and cfg.dominates(rb, wb))
-                # no way from the write back to this read without passing the loop header
-                again = rb in cfg.reachable_from(wb, avoid=(header,)) if rb != header else False
-                if not before or again:
-                    problems.append("self.index is read at %s after it was advanced: type id and vtable would come from different slots" % b.loc(rb))
-        # index uses: tys.get(self.index) and vtable[index copy]
-        tys_gets = []
-        vt_idx = []
-        cur = ("field", ("param", 1), "index", adt)
-        for bb, t in b.normal_calls():
-            c = Callee(t["func"])
-            if c.name == "get" and not c.local:
-                a = bt.call_args(bb)
-                f_, i_, base = S.table_access(b, a[0])
-                if S.crate_fields(f_) == [(adt, "tys")]:
-                    tys_gets.append(a[1])
-        for bi, blk in enumerate(b.blocks):
-            if blk["cleanup"]:
+            evs = [x for x in W._deep_all(it.path.events)] + [x for x in tail]
+            calls = [x for x in evs if x[0] == "call"]
+            tg = [x for x in calls if x[2].name == "get" and not x[2].local and Q.crate_fields(Q.table_access(ev, x[3][0])[0]) == [(adt, "tys")]]
+            stores = [x for x in evs if x[0] == "store" and x[2] == cur]
+            if len(tg) != 1 or Q.strip(ev, tg[0][3][1]) != cur:
+                problems.append("the type id is not read with self.tys.get(self.index)")
                 continue
-            for st in blk["stmts"]:
-                if st["k"] == "assign":
-                    for pl in [st["rv"].get("place")] + [o.get("place") for o in [st["rv"].get("op")] if isinstance(o, dict)]:
-                        if pl and any(e["k"] == "index" for e in pl["p"]):
-                            t_ = bt.place(pl)
-                            f_, i_, base = S.table_access(b, t_)
-                            if S.crate_fields(f_) == [(adt, vt)]:
-                                vt_idx.append(i_[0])
-        if tys_gets != [cur]:
-            problems.append("the type id is not read with self.tys.get(self.index)")
-        if not vt_idx or any(x != cur for x in vt_idx):
-            problems.append("the vtable entry is not read at the same index as the type id (%s)" % (vt_idx,))
-        # absent resources continue the loop; present ones are borrowed through the cell
-        tfi = [bb for bb, t in b.normal_calls() if Callee(t["func"]).name == "try_fetch_internal"]
-        if len(tfi) != 1:
-            problems.append("expected one try_fetch_internal call")
-        else:
-            a = bt.call_args(tfi[0])
-            rid = a[1]
-            okrid = rid[0] == "call" and bt.callee(rid[1]).name == "from_type_id" and root(rid[2][0], bt, facts.crate)[0][0] == "call"
-            if not okrid:
+            slot = it.path.variant(tg[0][4])
+            if slot == "None":
+                n_end += 1
+                if stores:
+                    problems.append("the cursor moves although the end was reached")
+                if it.end == "continue":
+                    problems.append("the loop goes on after the last slot")
+                for e in rets:
+                    if e.kind == "return" and not (e.ret[0] == "agg" and e.ret[2] == "std::option::Option::None"):
+                        problems.append("something is yielded after the last slot")
+                continue
+            if slot != "Some":
+                problems.append("the outcome of tys.get(index) is not examined")
+                continue
+            if len(stores) != 1 or not fold_like_sem(stores[0][3], cur):
+                problems.append("self.index is advanced %d time(s) for a visited slot (expected exactly once, by 1)" % len(stores))
+            ty = ("field", ("variant", tg[0][4], "Some"), "0", "std::option::Option")
+            fetches = [x for x in calls if x[2].key == tfi.key]
+            if len(fetches) != 1:
+                problems.append("expected one try_fetch_internal call per visited slot")
+                continue
+            rid = Q.strip(ev, fetches[0][3][1])
+            if not (Q.is_call(ev, rid, "from_type_id") and Q.strip(ev, rid[2][0]) == ty):
                 problems.append("the looked-up id is not ResourceId::from_type_id(the type id read from tys)")
-        bs = [Callee(t["func"]).name for bb, t in b.normal_calls() if Callee(t["func"]).name in W.SHARED_BORROWS | W.EXCL_BORROWS]
-        if bs != [borrow]:
-            problems.append("resources are borrowed with %s (expected %s)" % (bs, borrow))
-        rets = [bi for bi in cfg.returns]
+            found = it.path.variant(fetches[0][4])
+            if found is None:
+                for e in rets:
+                    found = found or e.path.variant(fetches[0][4])
+            if found == "None":
+                n_skip += 1
+                if it.end != "continue":
+                    problems.append("an absent resource ends the iteration instead of being skipped")
+                continue
+            if found != "Some":
+                problems.append("the outcome of the lookup is not examined")
+                continue
+            n_yield += 1
+            if it.end == "continue":
+                problems.append("a present resource is skipped")
+            cell = ("field", ("variant", fetches[0][4], "Some"), "0", "std::option::Option")
+            bs = [x for x in calls if x[2].name in W.SHARED_BORROWS | W.EXCL_BORROWS and W.CELL in x[2].path]
+            if [x[2].name for x in bs] != [borrow] or Q.strip(ev, bs[0][3][0]) != cell:
+                problems.append("resources are borrowed with %s (expected one %s of the looked-up cell)" % ([x[2].name for x in bs], borrow))
+            # the vtable entry travels with the guard: it must come from the slot the type id came from
+            vts = []
+            for x in evs:
+                if x[0] == "call":
+                    for a in x[3]:
+                        for s_ in subterms(a):
+                            if s_[0] in ("index",) or (s_[0] == "call" and Q.callee_of(ev, s_) is not None and Q.callee_of(ev, s_).name in ("index", "index_mut")):
+                                f_, i2, base = Q.table_access(ev, s_)
+                                if Q.crate_fields(f_) == [(adt, vt)] and i2:
+                                    vts.append(Q.strip(ev, i2[0]))
+            if not vts or any(v != cur for v in vts):
+                problems.append("the vtable entry is not read at the same index as the type id")
+            for e in rets:
+                if e.kind == "return" and not (e.ret[0] == "agg" and e.ret[2] == "std::option::Option::Some"):
+                    problems.append("a present resource does not produce Some(..)")
+        if not (n_yield and n_skip and n_end):
+            problems.append("expected ways for: end of table, absent resource, present resource (found %d/%d/%d)" % (n_end, n_skip, n_yield))
         report.ob(rule, "%s::next" % adt.rsplit("::", 1)[1], not problems, "; ".join(sorted(set(problems))) if problems else
                   "tys and %s are read at the same self.index, which advances once per visited slot; absent resources are skipped; %s()" % (vt, borrow),
                   site=b.loc(), config=config)
         # constructor
         cb = facts.one(MT + "::" + ctor)
-        ret = prog.bt(cb).local(0)
-        ok = ret[0] == "agg" and ret[2] == adt + "::" + adt.rsplit("::", 1)[1]
-        if ok:
-            fl = dict(zip(ret[4], ret[3]))
-            ok = (fl.get("index") == ("int", 0) and fl.get("world") == ("param", 2)
-                  and S.crate_fields(S.table_access(cb, fl.get(vt))[0]) == [(MT, vt)] and S.crate_fields(S.table_access(cb, fl.get("tys"))[0]) == [(MT, "tys")])
-        report.ob(rule, "MetaTable::%s" % ctor, ok, "starts at index 0 over the table's own %s / tys and the given world" % vt if ok else "iterator constructor wires %s" % (ret,), site=cb.loc(), config=config)
+        evc, endsc = Q.sem(ctx, facts, cb)
+        ok = False
+        for e in endsc:
+            if e.kind != "return":
+                continue
+            ret = e.ret
+            ok = ret[0] == "agg" and ret[2] == adt + "::" + adt.rsplit("::", 1)[1]
+            if ok:
+                fl = dict(zip(ret[4], ret[3]))
+                ok = (fl.get("index") == ("int", 0) and Q.strip(evc, fl.get("world")) == ("param", 2)
+                      and Q.crate_fields(Q.table_access(evc, fl.get(vt))[0]) == [(MT, vt)] and Q.crate_fields(Q.table_access(evc, fl.get("tys"))[0]) == [(MT, "tys")])
+        report.ob(rule, "MetaTable::%s" % ctor, ok, "starts at index 0 over the table's own %s / tys and the given world" % vt if ok else "iterator constructor does not start at 0 over the table's own lists", site=cb.loc(), config=config)
+
+
+def fold_like_sem(t, base):
+    """t is base + 1 (checked add)."""
+    if isinstance(t, tuple) and t[0] == "field" and t[2] == "0" and isinstance(t[1], tuple) and t[1][0] == "bin":
+        t = t[1]
+    return isinstance(t, tuple) and t[0] == "bin" and t[1].startswith("Add") and ((t[2] == base and t[3] == ("int", 1)) or (t[3] == base and t[2] == ("int", 1)))
 
 
 def _sem_skeleton(ctx, facts, b):
